@@ -1,11 +1,15 @@
 (* C12 - Time to beat conversion inverts beat to time on the tick grid.  Statements only.
-   PARTIAL: local laws, valid for ANY state list sorted by time (which every timing data of the domain
-   produces, C11_monotone_states): a time strictly after a state and strictly before everything that
-   follows it.  Times that coincide exactly with state times (where the event tag decides, and where the
-   repaired search matters) and the global B+/B- characterisation are covered by the correspondence on
-   the dyadic family (exact floats) - see DESIGN.md. *)
+   Local laws valid for ANY state list sorted by time (which every timing data of the domain produces,
+   C11_monotone_states): strictly between state times (in a pause, between events, the inverse on the tick
+   grid, tick alignment, prefix independence) and, for times that coincide with state times, the tag rule
+   (C12_on_state_time: the last state at that time whose tag does not exceed the asked tag answers;
+   C12_on_state_time_none).  On real timing data: C12_roundtrip_interior, beat -> time -> beat is the identity
+   for every tick-aligned beat strictly between event beats and outside the union of the warps.
+   Left to the correspondence on the dyadic family (exact floats), with the oracle stating them directly:
+   the round trip on event beats, the warp-elapse clause as a statement about timing data, global
+   monotonicity in time, the half-tick bound. *)
 From Coq Require Import List ZArith QArith Bool Sorting.Sorted.
-From SV Require Import Sx Beat Engine Proofs.EngineFacts.
+From SV Require Import Sx Beat Engine Proofs.EngineFacts Proofs.Hittable Proofs.TimeLaw Proofs.BeatAt.
 Import ListNotations.
 Open Scope Q_scope.
 
@@ -41,6 +45,35 @@ Theorem C12_tick_aligned : forall pre s post d t q (kb : Z),
   exists k : Z, fst (beat_at_raw (pre ++ s :: post) d t q) == inject_Z k / 48.
 Proof. exact beat_at_tick_aligned. Qed.
 Print Assumptions C12_tick_aligned.
+
+(* a time that coincides with state times: the answer is the beat of the last state at that time whose tag
+   does not exceed the asked tag (so the WARP tag stops at the warp start and the default goes on to the furthest
+   beat reached at that time) *)
+Theorem C12_on_state_time : forall pre run1 x run2 post d t q,
+  (forall y, In y pre -> s_time y < t) -> (forall y, In y (run1 ++ x :: run2) -> s_time y == t) ->
+  (forall y, In y post -> t < s_time y) ->
+  (s_tag x <= q)%Z -> (forall y, In y run2 -> (q < s_tag y)%Z) ->
+  fst (beat_at_raw (pre ++ (run1 ++ x :: run2) ++ post) d t q) == s_beat x.
+Proof. exact beat_at_on_state_time. Qed.
+Print Assumptions C12_on_state_time.
+
+Theorem C12_on_state_time_none : forall pre p run post d t q,
+  (forall y, In y (pre ++ [p]) -> s_time y < t) -> (forall y, In y run -> s_time y == t) ->
+  (forall y, In y post -> t < s_time y) -> (forall y, In y run -> (q < s_tag y)%Z) ->
+  fst (beat_at_raw ((pre ++ [p]) ++ run ++ post) d t q) ==
+  if is_pause_tag (s_tag p) then s_beat p else s_beat p + tick_round ((t - s_time p) / 60 * s_bpm p).
+Proof. exact beat_at_on_state_time_none. Qed.
+Print Assumptions C12_on_state_time_none.
+
+(* on timing data of the domain with tick-aligned events: a tick-aligned beat strictly between event beats
+   and outside the union of the warps comes back from its own time, under every tag *)
+Theorem C12_roundtrip_interior : forall td b0 v0 rest, dom td -> td_bpms td = (b0, v0) :: rest -> b0 == 0 ->
+  (forall e, In e (events td) -> exists k : Z, e_beat e == inject_Z k / 48) ->
+  forall (b : Q) (kb q : Z),
+  0 < b -> b == inject_Z kb / 48 -> ~ in_raw (td_warps td) b -> (forall e, In e (events td) -> ~ e_beat e == b) ->
+  fst (beat_at_raw (sts td v0) (init_state td v0) (time_at (sts td v0) (init_state td v0) b tSTOP) q) == b.
+Proof. exact roundtrip_interior. Qed.
+Print Assumptions C12_roundtrip_interior.
 
 (* rounding to the tick does not depend on how the rational is written, and fixes every tick *)
 Theorem C12_round_well_defined : forall a b, a == b -> tick_round a == tick_round b.
